@@ -137,9 +137,10 @@ Definition doc_headers (declared : list (str * Response.fval)) : list str :=
    [Body = Option<T>] with a referenceable [T] schemars (json_schema/impls/
    core.rs, [option_nullable = true]) returns T's reference with the extension
    beside it, { "$ref": r, "nullable": true }: the RemoveRefSiblings visitor of
-   the openapi3 settings, which would turn this into { allOf: [{$ref}],
-   nullable: true }, runs only in [root_schema_for] / [into_root_schema_for]
-   (on roots and on definitions), never on the value [subschema_for] returns. *)
+   the openapi3 settings runs only in [root_schema_for] /
+   [into_root_schema_for] (on roots and on definitions), never on the value
+   [subschema_for] returns.  j2oas_schema_object (since fix 16fe29f) wraps such
+   a reference: { allOf: [{$ref: r}], nullable: true }. *)
 Definition option_ref_schema (r : str) : schema :=
   SObj (mkSObj None None None None None None None None None None (Some r)
                [(s_nullable, JBool true)]).
